@@ -4,6 +4,7 @@ import (
 	"fmt"
 	"testing"
 
+	"github.com/RoaringBitmap/roaring"
 	segment "github.com/blugelabs/bluge_segment_api"
 	"pgregory.net/rapid"
 )
@@ -172,4 +173,142 @@ func TestC02Huge(t *testing.T) {
 	st := NewStats("C02Huge", c02Rule)
 	defer st.Flush()
 	rapid.Check(t, c02Prop(st, FamHuge))
+}
+
+// ---- merges whose surviving cardinality of one term sits on a multiple of 1024 ----
+
+const c02BoundaryRule = "case = merge of a small input holding the term in one document (pre-merged alone, so the term is 1-hit encoded there, or left built) and a >1000-document input, with the number of SURVIVING postings of that term " +
+	"drawn from {1023,1024,1025,2047,2048,2049} after deleting the small input's posting and/or 0..2 postings of the large input; adaptive and fixed output chunk modes, both input orders; " +
+	"oracle = reference model + literal rebuild of the survivors; non-trivial = the small input's 1-hit posting is deleted or survives with the surviving cardinality within 1 of a multiple of 1024; distinct = hash of the case text"
+
+func c02BoundaryProp(st *CaseStats) func(t *rapid.T) {
+	return func(t *rapid.T) {
+		ctx := &Ctx{}
+		defer ctx.Close()
+		sc := GenScenario(t)
+		nA := rapid.IntRange(1, 4).Draw(t, "nA")
+		hitA := rapid.IntRange(0, nA-1).Draw(t, "hitA")
+		hitLocs := rapid.IntRange(0, 3).Draw(t, "hitWithLocs") == 0
+		a := make(Batch, nA)
+		for i := range a {
+			f := Field{Name: "a", Len: 1, Terms: []Term{{T: fmt.Sprintf("o%d", i), Freq: 1}}}
+			if i == hitA {
+				tm := Term{T: "dense", Freq: 1}
+				if hitLocs {
+					tm.Locs = []Loc{{Pos: 1, Start: 2, End: 3}}
+				}
+				f.Terms = append(f.Terms, tm)
+				f.Len++
+			}
+			a[i].Fields = []Field{f}
+		}
+		target := rapid.SampledFrom([]int{1023, 1024, 1025, 2047, 2048, 2049}).Draw(t, "survivingCardinality")
+		dropHitA := rapid.Bool().Draw(t, "dropHitA")
+		dB := rapid.IntRange(0, 2).Draw(t, "droppedInB")
+		T := target + dB
+		if !dropHitA {
+			T--
+		}
+		nB := T + rapid.IntRange(0, 30).Draw(t, "tailB")
+		locEvery := rapid.SampledFrom([]int{0, 1, 5}).Draw(t, "locEvery")
+		b := make(Batch, nB)
+		for i := range b {
+			f := Field{Name: "a"}
+			if i < T {
+				tm := Term{T: "dense", Freq: 1 + i%3}
+				if locEvery > 0 && i%locEvery == 0 {
+					tm.Locs = []Loc{{Pos: i, Start: i, End: i + 2}}
+				}
+				f.Terms = append(f.Terms, tm)
+				f.Len += tm.Freq
+			}
+			if i%7 == 0 {
+				f.Terms = append(f.Terms, Term{T: fmt.Sprintf("s%d", i%3), Freq: 1})
+				f.Len++
+			}
+			if len(f.Terms) > 0 {
+				b[i].Fields = []Field{f}
+			}
+		}
+		mk := func(batch Batch, mode uint32, what string) *SegCase {
+			seg, err := Build(batch, sc.Norm, mode)
+			if err != nil {
+				t.Fatalf("%s: building %s: %v", sc, what, err)
+			}
+			return &SegCase{Seg: seg, Exp: Expect(batch, sc.Norm.F), Docs: batch, Mode: mode, Desc: what}
+		}
+		modes := []uint32{1025, 1025, 1025, 1024, 100}
+		pick := func(label string) uint32 {
+			if !HooksOn {
+				return 1025
+			}
+			return rapid.SampledFrom(modes).Draw(t, label)
+		}
+		ca := mk(a, pick("modeA"), fmt.Sprintf("A{%d docs, \"dense\" in doc %d, locs=%v}", nA, hitA, hitLocs))
+		preMerged := rapid.IntRange(0, 3).Draw(t, "preMergeA") > 0
+		if preMerged {
+			var err error
+			ca, _, err = MergeCases(ctx, []*SegCase{ca}, []*roaring.Bitmap{nil}, pick("modeAMerged"), holdMem)
+			if err != nil {
+				t.Fatalf("%s: pre-merging A: %v", sc, err)
+			}
+		}
+		cb := mk(b, pick("modeB"), fmt.Sprintf("B{%d docs, \"dense\" in the first %d, locEvery=%d}", nB, T, locEvery))
+		dropA, dropB := roaring.New(), roaring.New()
+		if dropHitA {
+			dropA.Add(uint32(hitA))
+		}
+		for k := 0; k < dB; k++ {
+			dropB.Add(uint32(rapid.IntRange(0, T-1).Draw(t, "dropInB")))
+		}
+		for uint64(dB) > dropB.GetCardinality() { // drawn twice: take the next free one
+			for d := uint32(0); ; d++ {
+				if !dropB.Contains(d) {
+					dropB.Add(d)
+					break
+				}
+			}
+		}
+		ins, drops := []*SegCase{ca, cb}, []*roaring.Bitmap{dropA, dropB}
+		if rapid.Bool().Draw(t, "bFirst") {
+			ins, drops = []*SegCase{cb, ca}, []*roaring.Bitmap{dropB, dropA}
+		}
+		c, _, err := MergeCases(ctx, ins, drops, pick("outMode"), holdMem)
+		if err != nil {
+			t.Fatalf("%s: %v", sc, err)
+		}
+		mergeLabels(c, ins, drops)
+		if got := len(c.Exp.Post["a"]["dense"]); got != target {
+			t.Fatalf("harness: surviving cardinality %d, wanted %d", got, target)
+		}
+		obs, err := Observe(c.Seg, ProbeFields, NoStats)
+		if err != nil {
+			t.Fatalf("case %s %s: %v", sc, c.Desc, err)
+		}
+		if d := Diff(c.Exp, obs, NoStats); d != "" {
+			t.Fatalf("case %s %s:\n  merged vs model: %s", sc, c.Desc, d)
+		}
+		d, err := rebuildDiff(sc, c, obs, FamWide)
+		if err != nil {
+			t.Fatalf("case %s %s: %v", sc, c.Desc, err)
+		}
+		if d != "" {
+			t.Fatalf("case %s %s:\n  merged vs rebuilt survivors: %s", sc, c.Desc, d)
+		}
+		labels := c.LabelList()
+		labels = append(labels, fmt.Sprintf("surviving-cardinality-%d", target))
+		if preMerged && !hitLocs {
+			labels = append(labels, "1-hit-input")
+			if dropHitA {
+				labels = append(labels, "1-hit-posting-deleted")
+			}
+		}
+		st.Record(sc.String()+" "+c.Desc, preMerged && !hitLocs, labels...)
+	}
+}
+
+func TestC02Boundary(t *testing.T) {
+	st := NewStats("C02Boundary", c02BoundaryRule)
+	defer st.Flush()
+	rapid.Check(t, c02BoundaryProp(st))
 }
